@@ -17,9 +17,9 @@ pub(crate) mod kani_verif {
     static NODE_REQ: [AtomicUsize; 32] = [const { AtomicUsize::new(0) }; 32];
     static NODE_VAL: [AtomicU8; 32 * 32] = [const { AtomicU8::new(0) }; 32 * 32];
     static NODE_CALLS: AtomicUsize = AtomicUsize::new(0);
-    pub fn stub_tree_element<HH: HashChain>(
+    pub fn stub_tree_element<H: HashChain>(
         index: usize,
-        _private_key: &LmsPrivateKey<HH>,
+        _private_key: &LmsPrivateKey<H>,
         _aux_data: &mut Option<MutableExpandedAuxData>,
     ) -> ArrayVec<[u8; MAX_HASH_SIZE]> {
         let k = NODE_CALLS.fetch_add(1, Ordering::Relaxed);
@@ -31,7 +31,7 @@ pub(crate) mod kani_verif {
             NODE_VAL[k * 32 + i].store(v[i], Ordering::Relaxed);
             i += 1;
         }
-        ArrayVec::from_array_len(v, HH::OUTPUT_SIZE as usize)
+        ArrayVec::from_array_len(v, H::OUTPUT_SIZE as usize)
     }
     fn node_val(k: usize) -> [u8; 32] {
         let mut b = [0u8; 32];
@@ -47,11 +47,11 @@ pub(crate) mod kani_verif {
     static OTS_SIGN_CALLS: AtomicUsize = AtomicUsize::new(0);
     static OTS_SIGN_ARG: [AtomicU8; 16 + 4 + 32 + 8] = [const { AtomicU8::new(0) }; 60];
     static OTS_SIGN_MSGLEN: AtomicUsize = AtomicUsize::new(0);
-    pub fn stub_ots_sign<HH: HashChain>(
-        private_key: &LmotsPrivateKey<HH>,
+    pub fn stub_ots_sign<H: HashChain>(
+        private_key: &LmotsPrivateKey<H>,
         signature_randomizer: &ArrayVec<[u8; MAX_HASH_SIZE]>,
         message: &[u8],
-    ) -> LmotsSignature<HH> {
+    ) -> LmotsSignature<H> {
         OTS_SIGN_CALLS.fetch_add(1, Ordering::Relaxed);
         let mut i = 0;
         while i < 16 {
@@ -74,7 +74,7 @@ pub(crate) mod kani_verif {
             OTS_SIGN_ARG[52 + i].store(message[i], Ordering::Relaxed);
             i += 1;
         }
-        let mut s = LmotsSignature::<HH>::default();
+        let mut s = LmotsSignature::<H>::default();
         s.lmots_parameter = private_key.lmots_parameter;
         s.signature_randomizer = *signature_randomizer;
         s.hash_iterations = kani::any();
